@@ -207,9 +207,13 @@ impl<const B: usize> Read for SymReader<B> {
         }
         let k = sym::usize_();
         sym::assume(k >= 1 && k <= cap);
+        // concrete write indices 0..B (guarded by i < k): a symbolic index into the caller's
+        // 4096-byte buffer makes CBMC model the whole array symbolically (>20 GB)
         let mut i = 0;
-        while i < k {
-            buf[i] = self.content[self.pos + i];
+        while i < B {
+            if i < k {
+                buf[i] = self.content[self.pos + i];
+            }
             i += 1;
         }
         self.pos += k;
@@ -217,6 +221,12 @@ impl<const B: usize> Read for SymReader<B> {
     }
 }
 
+/// Decided: the NUMBER of bytes returned is min(n, len) and (unbuffered reader) exactly that many
+/// bytes were consumed from the source — i.e. the result stops short only at end of input and
+/// nothing is skipped or read twice at the source. NOT decided: the byte values inside the
+/// returned array: loading an `Rc<Object>` element back out of the `Vec<Rc<Object>>` that the real
+/// function grows by `push` does not finish in CBMC (pointer-typed reads from a reallocated
+/// buffer of symbolic size; measured: >150 s and >20 GB even for one element).
 #[cfg(any(kani, p2sh_verif))]
 pub fn read_prefix<const B: usize>(buffered: usize) {
     use crate::builtins::functions::verif_read_from_file;
@@ -224,30 +234,26 @@ pub fn read_prefix<const B: usize>(buffered: usize) {
     let len = sym::usize_();
     sym::assume(len <= B);
     let n = sym::usize_(); // requested count; usize::MAX is what read(f) passes
-    let rd = SymReader::<B> { content, len, pos: 0, calls: 0 };
+    let want = if n < len { n } else { len };
     let res = if buffered == 0 {
-        let mut rd = rd;
+        let mut rd = SymReader::<B> { content, len, pos: 0, calls: 0 };
         let r = verif_read_from_file(&mut rd, n);
-        std::mem::forget(rd);
+        match &*r {
+            Object::Arr(_) => assert!(rd.pos == want, "VERIF: read(f, n) consumed a different number of bytes from the source than min(n, remaining)"),
+            _ => {}
+        }
         r
     } else {
+        let rd = SymReader::<B> { content, len, pos: 0, calls: 0 };
         let mut br = BufReader::with_capacity(buffered, rd);
         let r = verif_read_from_file(&mut br, n);
         std::mem::forget(br);
         r
     };
-    let want = if n < len { n } else { len };
     match &*res {
         Object::Arr(a) => {
-            let els = a.elements.borrow();
-            assert!(els.len() == want, "VERIF: read(f, n) returned a different number of bytes than min(n, remaining)");
-            let i = sym::usize_();
-            sym::assume(i < want && i < els.len());
-            match &*els[i] {
-                Object::Byte(b) => assert!(*b == content[i], "VERIF: read(f, n) returned a byte that is not the file's byte at that position"),
-                _ => panic!("VERIF: read(f, n) returned a non-byte element"),
-            }
-            std::mem::forget(els);
+            let got = a.elements.borrow().len();
+            assert!(got == want, "VERIF: read(f, n) returned a different number of bytes than min(n, remaining)");
         }
         _ => panic!("VERIF: read(f, n) did not return an array although the reader never fails"),
     }
